@@ -206,6 +206,10 @@ def primitives():
                 ms = [["v", ["BitsInteger", w, s, sw]]] + ([[None, ["Padding", pad]]] if pad else [])
                 ps.append(["Bitwise", ["Struct", ms]])
     ps += [["Enum", ["name", "Byte"], [["one", 1], ["two", 2]]], ["EnumClass", ["name", "Int16ul"], [["a", 1], ["b", 300]]],
+           # an enum class with aliases (several names for one number: the first one is the member, the others are aliases of it)
+           ["EnumClass", ["name", "Byte"], [["ack", 2], ["acknowledge", 2], ["nak", 3], ["negative", 3], ["idle", 0]]],
+           ["EnumMixed", ["name", "Byte"], [["ack", 2], ["acknowledge", 2]], [["extra", 9]]],
+           ["FlagsEnumClass", ["name", "Byte"], [["r", 1], ["read", 1], ["w", 2], ["x", 4]]],
            ["FlagsEnum", ["name", "Byte"], [["r", 1], ["w", 2], ["x", 4]]], ["FlagsEnum", ["name", "Int16ub"], [["lo", 1], ["hi", 0x8000]]],
            ["Mapping", ["name", "Byte"], [["a", 0], ["b", 1]]], ["ByteSwapped", ["name", "Int32ub"]], ["ByteSwapped", ["Bytes", 3]],
            ["Hex", ["name", "Int24ul"]], ["OneOf", ["name", "Byte"], [1, 5, 9]], ["ProcessXor", 0x5a, ["name", "Int16ub"]]]
@@ -227,16 +231,97 @@ def primitives():
     return ps
 
 
+def recursive_formats(ctx, rng):
+    """tag-length-value trees and nested lists: every length-prefixed / counted / terminated region is built by the very object
+    that is building the enclosing region.  Oracle: a direct recursive encoder; parse(build(v)) == v."""
+    import construct as C
+    from ..veq import veq
+
+    def tree(depth, budget):
+        kids = []
+        if depth > 0:
+            for _ in range(rng.randint(0, 3)):
+                if budget[0] <= 0:
+                    break
+                budget[0] -= 1
+                kids.append(tree(depth - 1, budget))
+        return {"tag": rng.randrange(256), "children": kids}
+    holder = {}
+    tlv = C.Struct("tag" / C.Byte, "children" / C.Prefixed(C.Byte, C.GreedyRange(C.LazyBound(lambda: holder["tlv"]))))
+    holder["tlv"] = tlv
+    cnt = C.Struct("tag" / C.Byte, "children" / C.PrefixedArray(C.VarInt, C.LazyBound(lambda: holder["cnt"])))
+    holder["cnt"] = cnt
+    fixed = C.Struct("tag" / C.Byte, "children" / C.Padded(40, C.Prefixed(C.Int16ul, C.GreedyRange(C.LazyBound(lambda: holder["fx"])), includelength=True)))
+    holder["fx"] = fixed
+    aligned = C.Struct("tag" / C.Byte, "children" / C.Aligned(4, C.PrefixedArray(C.Byte, C.LazyBound(lambda: holder["al"]))))
+    holder["al"] = aligned
+
+    def enc_tlv(n):
+        body = b"".join(enc_tlv(k) for k in n["children"])
+        return bytes([n["tag"], len(body)]) + body
+
+    def varint(x):
+        out = bytearray()
+        while x > 127:
+            out.append(0x80 | (x & 0x7f))
+            x >>= 7
+        out.append(x)
+        return bytes(out)
+
+    def enc_cnt(n):
+        return bytes([n["tag"]]) + varint(len(n["children"])) + b"".join(enc_cnt(k) for k in n["children"])
+
+    def enc_fixed(n):
+        body = b"".join(enc_fixed(k) for k in n["children"])
+        inner = (len(body) + 2).to_bytes(2, "little") + body
+        return None if len(inner) > 40 else bytes([n["tag"]]) + inner + bytes(40 - len(inner))
+
+    def enc_al(n):
+        inner = bytes([len(n["children"])]) + b"".join(enc_al(k) for k in n["children"])
+        return bytes([n["tag"]]) + inner + bytes(-len(inner) % 4)
+    for name, d, enc, maxdepth in (("tlv", tlv, enc_tlv, 3), ("counted", cnt, enc_cnt, 3), ("padded-includelength", fixed, enc_fixed, 1), ("aligned-counted", aligned, enc_al, 3)):
+        ok = 0
+        for _ in range(ctx.pick(40, 400)):
+            v = tree(rng.randint(0, maxdepth), [12])
+            want = enc(v)
+            if want is None or len(want) > 250:
+                ctx.count("recursive_value_too_large")
+                continue
+            ctx.ev()
+            case = {"cls": "recursive", "format": name, "value": tag(v)}
+            lb = lib_build(d, v, {})
+            if lb[0] != "ok":
+                ctx.violation("build-fails-on-domain-value:recursive-%s:%s" % (name, lb[1]), "build(%r) raised %s" % (v, lb[1]), case)
+                break
+            if lb[1] != want:
+                ctx.violation("roundtrip-value-differs:recursive-%s:build" % name, "build(%r) = %s, the recursive reference encoder gives %s" % (v, lb[1].hex(), want.hex()), case)
+                break
+            lp = lib_parse(d, lb[1], {})
+            if lp[0] != "ok" or not veq(lp[1], v) or lp[2] != len(lb[1]):
+                ctx.violation("roundtrip-value-differs:recursive-%s" % name, "parse(build(v)) -> %r, v = %r" % (lp[1:], v), case)
+                break
+            ok += 1
+            if any(k["children"] for k in v["children"]):
+                ctx.nontrivial("recursive", name, repr(v)[:80])
+        ctx.count("recursive_roundtrips_ok", ok)
+
+
 def derived_steering():
     B, H = ["name", "Byte"], ["name", "Int16ub"]
     N = ["this", "n"]
     out = []
-    for comp in (["bin", "+", N, 1], ["bin", "*", N, 2], ["bin", "&", N, 1], ["bin", "-", 4, N]):
+    for comp in (["bin", "+", N, 1], ["bin", "*", N, 2], ["bin", "&", N, 1], ["bin", "-", 4, N], ["bin", "|", N, 4], ["bin", "&", ["bin", "|", ["bin", "<<", N, 1], 1], 7],
+                 ["bin", "|", ["bin", "&", N, 1], ["bin", "<<", ["bin", ">", N, 2], 2]], ["bin", "^", N, 3]):
         for dep in (["Bytes", ["this", "c"]], ["Array", ["this", "c"], H], ["Padding", ["this", "c"]], ["PaddedString", ["bin", "+", ["this", "c"], 1], "ascii"],
                     ["Switch", ["this", "c"], [[0, B], [1, ["name", "Int16ul"]], [2, ["Bytes", 3]]], ["name", "Int32ub"]], ["IfThenElse", ["bin", "==", ["this", "c"], 2], B, ["name", "Int24ub"]],
                     ["FixedSized", ["bin", "+", ["this", "c"], 2], H], ["Struct", [["e", ["Bytes", ["this", "_", "c"]]]]]):
             st = ["Struct", [["n", B], ["c", ["Computed", comp]], ["d", dep], ["t", B]]]
             out += [st, ["Array", 2, st], ["Struct", [["h", B], ["s", st]]], ["Prefixed", B, st, False]]
+    for flagbit in (7, 4):
+        # a header byte packed from two fields with | while building, unpacked again by the members that follow
+        st = ["Struct", [["last", ["name", "Flag"]], ["hdr", ["Rebuild", B, ["bin", "|", ["fn", "len", ["this", "payload"]], ["bin", "<<", ["this", "last"], flagbit]]]],
+                         ["payload", ["Array", ["bin", "&", ["this", "hdr"], 7], H]], ["chk", ["Computed", ["bin", "&", ["bin", ">>", ["this", "hdr"], flagbit], 1]]]]]
+        out += [st, ["Array", 2, st]]
     for cnt in (B, ["name", "VarInt"], ["name", "Int16ul"]):
         st = ["Struct", [["count", ["Rebuild", cnt, ["fn", "len", ["this", "items"]]]], ["items", ["Array", ["this", "count"], H]], ["t", B]]]
         out += [st, ["Array", 2, st], ["Struct", [["h", B], ["s", st]]]]
@@ -309,6 +394,9 @@ def run(ctx):
                 prev = canon
         if ok:
             ctx.nontrivial("stale", shape(r))
+    # ---- (1c) recursive formats: the same construct objects are entered again (through LazyBound) while they are still building
+    if ctx.mine(7):
+        recursive_formats(ctx, rng)
     # ---- (2) random compositions; the first ones of every worker are drawn directly from the special families of the grammar
     n = ctx.pick(4000, 120000) // ctx.nworkers
     nvals = ctx.pick(8, 16)
@@ -351,4 +439,6 @@ def run(ctx):
 
 
 def replay(ctx, case):
+    if case.get("cls") == "recursive":
+        return recursive_formats(ctx, ctx.rng)
     Runner(ctx).roundtrip(case["recipe"], untag(case["value"]), case.get("kw", {}), case.get("cls", "replay"))
